@@ -56,10 +56,24 @@ type gen struct {
 	c      *vkit.Collector
 	rng    *vkit.Rng
 	budget int
+	known  int // occurrences of the known finding reported so far
+}
+
+// violate reports a violation; the known finding Cell.ContainsPoint.leafMargin is reported at
+// most three times so that it cannot crowd out a different violation (the collector keeps 20).
+func (g *gen) violate(kind, desc string, replay interface{}) {
+	if kind == "Cell.ContainsPoint.leafMargin" {
+		g.known++
+		g.c.Extra["leafMargin_occurrences"] = g.known
+		if g.known > 3 {
+			return
+		}
+	}
+	g.c.Violate(kind, desc, replay)
 }
 
 func run(c *vkit.Collector, rng *vkit.Rng, budget int) {
-	g := &gen{c, rng, budget}
+	g := &gen{c: c, rng: rng, budget: budget}
 	g.tables()
 	ids := g.idSet()
 	for _, id := range ids {
@@ -81,7 +95,11 @@ func run(c *vkit.Collector, rng *vkit.Rng, budget int) {
 func (g *gen) searchVolume() {
 	n := 20000 * g.budget
 	for q := 0; q < n; q++ {
-		g.searchUV(g.gridU())
+		if q%2 == 0 {
+			g.searchUV(g.jumpU())
+		} else {
+			g.searchUV(g.gridU())
+		}
 	}
 	M := 1 << 30
 	edge := []int{-1, M, 0, M - 1, 1, M - 2, M / 2, M/2 - 1}
@@ -102,9 +120,15 @@ func (g *gen) searchVolume() {
 	}
 	for q := 0; q < 3000*g.budget; q++ {
 		f := g.rng.Intn(6)
-		u, v := g.gridU(), g.gridU()
-		if g.rng.Intn(3) == 0 {
+		u, v := g.jumpU(), g.gridU()
+		switch g.rng.Intn(3) {
+		case 0:
 			v = g.rng.Range(-1, 1)
+		case 1:
+			v = g.jumpU()
+		}
+		if g.rng.Bool() {
+			u, v = v, u
 		}
 		r := s2.VerifC01FaceUVToXYZ(f, u, v)
 		if g.rng.Intn(4) == 0 {
@@ -122,7 +146,7 @@ func (g *gen) searchVolume() {
 		}
 		for l := 0; l <= 30; l++ {
 			if !s2.CellFromCellID(leaf.Parent(l)).ContainsPoint(pt) {
-				g.c.Violate("Point.AncestorContains", fmt.Sprintf("the level-%d ancestor of CellFromPoint(p) does not contain p", l),
+				g.violate(containFailKind(pt, leaf.Parent(l), "Point.AncestorContains"), fmt.Sprintf("the level-%d ancestor of CellFromPoint(p) does not contain p", l),
 					map[string]interface{}{"p": []float64{r.X, r.Y, r.Z}, "bits": key, "leaf": fmt.Sprintf("%016x", uint64(leaf)), "level": l})
 				break
 			}
@@ -460,6 +484,50 @@ func (g *gen) gridU() float64 {
 	return vkit.Ulps(s2.VerifC01StToUV(s), g.rng.Intn(7)-3)
 }
 
+// jumpU: a u right at a jump of u -> stToIJ(uvToST(u)) (found by bisection, the map is monotone),
+// i.e. 2^30*uvToST(u) is within an ulp of an integer: this is where u is farthest outside the
+// uv-interval of its own leaf column. Half of the draws come from |u| in [0.25, 0.5], where the
+// excess exceeds dblEpsilon for about 3% of the columns.
+func (g *gen) jumpU() float64 {
+	M := 1 << 30
+	var i int
+	switch g.rng.Intn(4) {
+	case 0, 1:
+		lo, hi := int(0.2113*float64(M)), int(0.3536*float64(M))
+		i = lo + g.rng.Intn(hi-lo)
+		if g.rng.Bool() {
+			i = M - i
+		}
+	case 2:
+		l := g.rng.Intn(31)
+		i = (1 + g.rng.Intn(1<<uint(l))) << uint(30-l)
+		if i >= M {
+			i = M - 1
+		}
+	default:
+		i = 1 + g.rng.Intn(M-1)
+	}
+	ij := func(u float64) int { return s2.VerifC01StToIJ(s2.VerifC01UVToST(u)) }
+	u0 := s2.VerifC01StToUV(float64(i) / float64(M))
+	lo, hi := math.Max(u0-1e-13, -1), math.Min(u0+1e-13, 1)
+	if !(ij(lo) < i && ij(hi) >= i) {
+		return u0
+	}
+	for k := 0; k < 80; k++ {
+		mid := lo + (hi-lo)/2
+		if mid == lo || mid == hi {
+			break
+		}
+		if ij(mid) >= i {
+			hi = mid
+		} else {
+			lo = mid
+		}
+	}
+	g.c.Class("u:jump-of-stToIJ∘uvToST")
+	return []float64{lo, hi, vkit.Ulps(lo, -1), vkit.Ulps(hi, 1)}[g.rng.Intn(4)]
+}
+
 func (g *gen) pointSet() [][3]float64 {
 	var ps [][3]float64
 	add := func(x, y, z float64, class string) {
@@ -471,6 +539,19 @@ func (g *gen) pointSet() [][3]float64 {
 	}
 	nz := math.Copysign(0, -1)
 	sg := []float64{1, -1}
+	// fixed corpus: points for which CellFromPoint(p).ContainsPoint(p) was false on the unchanged
+	// tree: known finding Cell.ContainsPoint.leafMargin (u is 1.25*dblEpsilon outside the leaf's own uv bound)
+	for _, b := range [][3]uint64{{0x3fc7eb16c58621d8, 0xbfec3f608ffa12fd, 0x3fdb975da6a83768}, {0x3fbdcfd5bce2da59, 0xbfed378ae57d57b2, 0x3fd904c1fabf622e}} {
+		add(math.Float64frombits(b[0]), math.Float64frombits(b[1]), math.Float64frombits(b[2]), "corpus:leafMargin")
+	}
+	for _, u := range []float64{-0.48838316906296292, -0.4599809319023768} {
+		for f := 0; f < 6; f++ {
+			r := s2.VerifC01FaceUVToXYZ(f, u, g.rng.Range(-1, 1))
+			add(r.X, r.Y, r.Z, "corpus:leafMargin")
+			r = s2.VerifC01FaceUVToXYZ(f, g.jumpU(), u)
+			add(r.X, r.Y, r.Z, "corpus:leafMargin")
+		}
+	}
 	// cube corners, edge midpoints, face centres, with +-0
 	for _, x := range []float64{1, -1, 0, nz} {
 		for _, y := range []float64{1, -1, 0, nz} {
@@ -486,8 +567,14 @@ func (g *gen) pointSet() [][3]float64 {
 		f := g.rng.Intn(6)
 		// u or v on a grid line +- ulps, the other random or also on a grid line
 		u, v := g.gridU(), g.rng.Range(-1, 1)
-		if g.rng.Intn(3) == 0 {
+		if g.rng.Intn(2) == 0 {
+			u = g.jumpU()
+		}
+		switch g.rng.Intn(4) {
+		case 0:
 			v = g.gridU()
+		case 1:
+			v = g.jumpU()
 		}
 		if g.rng.Bool() {
 			u, v = v, u
@@ -551,7 +638,7 @@ func (g *gen) pointCases() {
 			cell := s2.CellFromCellID(leaf.Parent(l))
 			in := cell.ContainsPoint(pt)
 			if !in {
-				g.c.Violate("Point.AncestorContains", fmt.Sprintf("the level-%d ancestor of CellFromPoint(p) does not contain p", l),
+				g.violate(containFailKind(pt, leaf.Parent(l), "Point.AncestorContains"), fmt.Sprintf("the level-%d ancestor of CellFromPoint(p) does not contain p", l),
 					map[string]interface{}{"p": p, "bits": key, "leaf": fmt.Sprintf("%016x", uint64(leaf)), "level": l})
 			}
 			if l == 30 || l == 0 || (l+int(g.c.Seed))%3 == 0 {
